@@ -213,6 +213,7 @@ type Net struct {
 	claimed     map[string]bool
 	Ref         *RefDigests // C07: digests of the uncrashed reference run
 	pnames      map[string]string
+	injStats    *InjStats
 }
 
 type altBlock struct {
@@ -390,6 +391,9 @@ func (nt *Net) startNode(n *Node) bool {
 	}
 	nt.collect(n)
 	nt.Mon.noteStart(n)
+	if n.restarts == 0 {
+		nt.maybeInject(n)
+	}
 	return true
 }
 
@@ -596,6 +600,10 @@ func (nt *Net) step(n *Node, kind inputKind, d *delivery, toIdx int) {
 		nt.Mon.afterStep(n)
 		nt.Mon.recordDigest(n, hBefore)
 		n.inputs++
+		nt.maybeInject(n)
+		if !n.alive {
+			return
+		}
 		for i, r := range nt.Sc.Rules {
 			if r.Kind == "rotate" && r.Node == n.Idx && r.K == n.inputs && n.restarts == 0 {
 				if g := n.cs.VerifWALGroup(); g != nil {
@@ -963,4 +971,22 @@ func (nt *Net) checkReloadedProposer(n *Node, st *sm.State) {
 			fmt.Sprintf("node %d reloaded its state for height %d and computes validator %X as round-0 proposer; replicas that did not restart have %X (the cached proposer is not persisted and cannot be recomputed from the decremented accumulators)", n.Idx, h, got.Address[:4], want.Address[:4]))
 	}
 	st.Validators.VerifSetProposer(want.Address)
+}
+
+func (nt *Net) maybeInject(n *Node) {
+	sp := nt.Sc.Inject
+	if sp == nil || sp.Node != n.Idx || !n.alive {
+		return
+	}
+	if nt.injStats == nil {
+		nt.injStats = &InjStats{ByType: map[string]int{}, NextSkip: -1}
+	}
+	if nt.injStats.Triggered {
+		return
+	}
+	if !statePredicate(sp.State, n.cs.VerifRoundState(), n.inputs) {
+		return
+	}
+	nt.Trace = append(nt.Trace, fmt.Sprintf("-- n%d reached state %q: injecting %s cases --", n.Idx, sp.State, sp.Family))
+	nt.runInjections(n)
 }
